@@ -386,6 +386,7 @@ where
                                 failure_persistence: None,
                                 rng_seed: RngSeed::Fixed(sm),
                                 max_shrink_iters: 30000,
+                                max_shrink_time: 25_000,
                                 verbose: 0,
                                 ..Config::default()
                             };
